@@ -12,8 +12,12 @@
 //! * per group (sequence + 3 permutations): the order-free quantities of the final summaries agree
 //!   (count/high/low exactly; sum/mean/variance/std_dev² within twice the rounding tolerance).
 //!
-//! The same runs (all at quick, a strided subset at thorough) are written to the JSONL log with the
-//! observed fields as strings; `/verif/oracles/c17_welford.py` re-derives everything exactly.
+//! Each run is first observed (public fields recorded after every update, panics captured), then
+//! judged. The observations (all runs at quick, a strided subset of <= 5k groups = 20k runs at
+//! thorough; whatever the in-Rust verdict) are written to the JSONL log with the fields as strings at
+//! up to 9 prefixes per run; `/verif/oracles/c17_welford.py` re-derives everything exactly.
+//! Workload: 5k groups (quick) / 750k groups (thorough) of 4 runs each, n = 1..=500, |x| <= 1e9,
+//! scale <= 27, 13 value classes in turn.
 //!
 //! Tolerances (u = 1e-28, X = max |x| of the prefix, k = prefix length). rust_decimal keeps a
 //! 96-bit mantissa with scale <= 28, every operation is rounded to the largest scale that fits, so
